@@ -136,6 +136,10 @@ func RunB(sc *Scenario, site *Site, o BOpts) *Result {
 	defer cancel()
 	cmd := exec.CommandContext(ctx, bin, sc.Inv.Args...)
 	cmd.Dir = CwdFor(site, &sc.Inv)
+	if sc.Inv.Cwd == "symlink" {
+		// what a shell does after `cd <symlink>`: $PWD keeps the logical path
+		env = append(env, "PWD="+cmd.Dir)
+	}
 	cmd.Env = env
 	var so, se bytes.Buffer
 	cmd.Stdout, cmd.Stderr = &so, &se
